@@ -50,7 +50,7 @@ let c16_update body =
       let old_ = str_of o and new_ = str_of n in
       let attrs = attrs_of a and author = str_of au and ts = nn ts in
       let f = facts_of s u m in
-      let tr = transform f (sort4 attrs) author ts in
+      let tr = transform f (sort2 attrs) author ts in
       let out = update attrs author ts f in
       let lines = match out with Ok l -> res_lattrs (to_lines l new_) | Panic -> None in
       let lines0 = res_lattrs (to_lines attrs old_) in
@@ -66,7 +66,7 @@ let c16_transform body =
   match parse_many body with
   | [s; u; m; a; au; ts] ->
       let f = facts_of s u m in
-      let tr = transform f (sort4 (attrs_of a)) (str_of au) (nn ts) in
+      let tr = transform f (sort2 (attrs_of a)) (str_of au) (nn ts) in
       let mg = match tr with Ok l -> Some (show_attrs (merge l)) | Panic -> None in
       Printf.sprintf "%s %s (mok %s)" (tagged "tr" (res_attrs tr)) (tagged "mg" mg) (bool_s (moves_ok f))
   | _ -> failwith "c16-transform: bad case"
